@@ -234,6 +234,7 @@ def run(ctx):
                 emeta.append((o, extra, uri, host, cfg))
     res = vlib.run_impl("svc", cases)
     observed, unobserved = set(), {}
+    reported = set()
     for (o, extra, uri, host, cfg), r in zip(emeta, res):
         ctx.cov["evaluations"] += 1
         resp = r.get("response", {})
@@ -254,7 +255,8 @@ def run(ctx):
             code = re.search(r"<Code>([^<]*)</Code>", body)
             code = code.group(1) if code else "?"
             if kid and kid in known:
-                ctx.known(kid, known[kid]); known = {k: v for k, v in known.items() if k != kid}
+                if kid not in reported:
+                    ctx.known(kid, known[kid]); reported.add(kid)
             elif resp.get("status", 0) >= 500 or code in ("NotImplemented", "MethodNotAllowed", "InvalidBucketName", "?"):
                 ctx.violation(dict(stage="e2e", kind="a well-formed request for the operation was not dispatched", case=show,
                                    status=resp.get("status"), code=code))
